@@ -138,6 +138,9 @@ func walkJoint(it interface {
 
 // runOp executes op with receiver r and operands a (all rebuilt objects)
 func runOp(op string, r any, a []any) {
+	if runFuncOp(op, r, a) {
+		return
+	}
 	switch op {
 	// ---- vectors
 	case "VaddV":
@@ -532,6 +535,8 @@ func enumRCases(thorough bool, emit func(RCase)) {
 			emit(RCase{Op: "Mnorm", Recv: scal, Args: []Desc{A}})
 			emit(RCase{Op: "Mtrace", Recv: scal, Args: []Desc{A}})
 		}
+		// operations with a function argument (funcops.go)
+		enumFuncRCases(typ, thorough, emit)
 		// scalar <- scalar
 		scs := scalarConfigs(thorough)
 		for _, op := range scalarOps {
